@@ -403,10 +403,24 @@ def _judge_index_expr(ck, rule, fn, lp, ctx, chain):
 def _pair_generator(ck, gen_fn, n):
     """True/False/None and a description, for the recognised consecutive-pair idioms."""
     paths = [pa for pa in explore(ck, gen_fn, unroll=(0, 1)) if pa.outcome == "return"]
-    if len(paths) != 1:
+    if not paths and any(isinstance(x, (ast.Yield, ast.YieldFrom)) for x in ast.walk(gen_fn.node)):
+        # a generator function: read as the generator expression it spells out (sa/norm.py), if it is that simple
+        from ..norm import Normalizer
+        try:
+            v = Normalizer(ck.ctx, gen_fn)._body_to_term(list(gen_fn.body))
+        except AnalysisError:
+            v = None
+        if v is None:
+            return None, "generator function that is not a single loop around one yield"
+
+        class _NoEvents:
+            events = ()
+        pa = _NoEvents()
+    elif len(paths) != 1:
         return None, f"{len(paths)} return paths"
-    pa = paths[0]
-    v = pa.value
+    else:
+        pa = paths[0]
+        v = pa.value
     rng = T.mk_call("range", [n])
     # idiom A: a, b = tee(range(n)); next(b, None); return zip(a, b)
     if v[0] == "call" and v[1] == "zip" and len(v[2]) == 2:
@@ -450,7 +464,17 @@ def _pair_generator(ck, gen_fn, n):
         for x in T.subterms(v[2]):
             if x[0] == "bv":
                 bv = x
-        ok = v[2] == ("tuple", (bv, T.p_add(bv, C(1)))) and it == T.mk_call("range", [T.p_sub(n, C(1))]) and not v[3][0][1]
+        if v[3][0][1] or bv is None or len(v[2][1]) != 2:
+            return False, T.show(v)
+        # (bv + c0, bv + c1) for bv in range(a, b)  yields  (k, k + 1) for 0 <= k < n - 1   iff  c1 - c0 == 1, a + c0 == 0, b + c0 == n - 1
+        c0, c1 = T.p_sub(v[2][1][0], bv), T.p_sub(v[2][1][1], bv)
+        if not (T.is_num_const(c0) and T.is_num_const(c1)) and not (c0 == C(0)):
+            return None, T.show(v)
+        if it[0] == "call" and it[1] == "range" and not it[3] and len(it[2]) in (1, 2):
+            a, b = (C(0), it[2][0]) if len(it[2]) == 1 else (it[2][0], it[2][1])
+        else:
+            return None, T.show(v)
+        ok = T.p_sub(c1, c0) == C(1) and T.p_add(a, c0) == C(0) and T.p_add(b, c0) == T.p_sub(n, C(1))
         return ok, T.show(v)
     return None, T.show(v)[:200]
 
